@@ -7,6 +7,10 @@ full = "/repo/" + path
 src = open(full).read()
 assert src.count(old) >= 1, "pattern not found"
 open(full, "w").write(src.replace(old, new, 1))
+import shutil, os
+ev = f"/verif/evidence/{prop}.json"
+if os.path.exists(ev):
+    shutil.copy(ev, f"/tmp/evidence_{prop}.bak")
 try:
     r = subprocess.run(["/verif/check", prop], capture_output=True, text=True, cwd="/verif")
     out = (r.stdout + r.stderr).strip().splitlines()
@@ -15,3 +19,5 @@ try:
         print("   ", l[:260])
 finally:
     subprocess.run(["git", "-C", "/repo", "checkout", "--", path])
+    if os.path.exists(f"/tmp/evidence_{prop}.bak"):
+        shutil.move(f"/tmp/evidence_{prop}.bak", ev)
